@@ -9,7 +9,7 @@ git -C /repo worktree add -q --detach "$wt" HEAD
 trap 'git -C /repo worktree remove --force "$wt" >/dev/null 2>&1 || true' EXIT
 cp "$demo" "$wt/$pkg/$(basename "$demo" | sed 's/\.txt$//')"
 cd "$wt"
-base() { go test -vet=off -count=1 ./core/... 2>&1 | grep -E "^(--- FAIL|ok|FAIL)" | grep -v -i seeded | sort | sed 's/[0-9.]*s$//' ; }
+base() { go test -vet=off -count=1 ./core/... 2>&1 | grep -E "^(--- FAIL|ok|FAIL)" | grep -v -i seeded | sed -E 's/\(?[0-9.]+s\)?$//' | sort ; }
 echo "[$id] demo without patch:"; if go test -vet=off -count=1 "$@" >/tmp/vs-$$.log 2>&1; then echo "  PASS (as required)"; else echo "  FAIL (unexpected)"; tail -5 /tmp/vs-$$.log; fi
 mv "$wt/$pkg/$(basename "$demo" | sed 's/\.txt$//')" /tmp/vs-demo-$$
 b0=$(base)
